@@ -256,7 +256,7 @@ Theorem C16_qr_factorize_junk_independent (S : Scalar) m n rs cs (A q q' : vec S
 Proof. exact (qr_factorize_junk_independent m n rs cs A q q'). Qed.
 Print Assumptions C16_qr_factorize_junk_independent.
 
-(* A6 QR, correctness: proved at the end of this file (section QrCorrect, C16_qr_*), over any
+(* A6 QR, correctness: proved at the end of this file (section QrCorrect, theorems C16_qr_...), over any
    field with the hypotheses that a real square root satisfies; closed at the reals R. *)
 
 (* ------------------------------------------------------------------------------------ *)
@@ -448,7 +448,7 @@ Theorem C16_qr_solve_least_squares_R (cm : bool) m n (A b : vec RS) :
   length x = n /\
   (forall c, c < n -> sumn (fun r => a r c * (mulv n a (vget x) r - vget b r)) m = s0) /\
   forall z : nat -> RS,
-    Rle (@nrm2 RS m (fun r => mulv n a (vget x) r - vget b r)) (@nrm2 RS m (fun r => mulv n a z r - vget b r)).
+    Rdefinitions.Rle (@nrm2 RS m (fun r => mulv n a (vget x) r - vget b r)) (@nrm2 RS m (fun r => mulv n a z r - vget b r)).
 Proof. exact (qr_solve_least_squares_R cm m n A b). Qed.
 Print Assumptions C16_qr_solve_least_squares_R.
 
@@ -461,7 +461,7 @@ Theorem C16_qr_solve_minimum_norm_R (cm : bool) m n (A b : vec RS) :
   let a := fun r c => vget A (r * rs + c * cs) in
   length x = n /\
   (forall r, r < m -> mulv n a (vget x) r = vget b r) /\
-  forall z : nat -> RS, (forall r, r < m -> mulv n a z r = vget b r) -> Rle (@nrm2 RS n (vget x)) (@nrm2 RS n z).
+  forall z : nat -> RS, (forall r, r < m -> mulv n a z r = vget b r) -> Rdefinitions.Rle (@nrm2 RS n (vget x)) (@nrm2 RS n z).
 Proof. exact (qr_solve_min_norm_R cm m n A b). Qed.
 Print Assumptions C16_qr_solve_minimum_norm_R.
 
